@@ -217,6 +217,39 @@ def gen_html():
     hx = _sq(function_body(src, r"FormatterToHTML::accumHexNumber\s*\(", "accumHexNumber"))
     need(re.escape("accumContent(XalanUnicode::charPercentSign);") + ".*?" + re.escape("NumberToHexDOMString(theChar,m_stringBuffer);if(m_stringBuffer.length()==1){accumContent(XalanUnicode::charDigit_0);}accumContent(m_stringBuffer);"), hx,
          "accumHexNumber: % and two hex digits")
+    # ---- namespace bookkeeping and the shared scratch string m_stringBuffer
+    need(re.escape("boolpopHasNamespace(){returnm_prefixResolver==0?false:doPopHasNamespace();}boolpushHasNamespace(constXalanDOMChar*theElementName){returnm_prefixResolver==0?false:doPushHasNamespace(theElementName);}"),
+         _sq(hhdr), "pushHasNamespace / popHasNamespace: false without a prefix resolver")
+    dp = _sq(function_body(src, r"FormatterToHTML::doPushHasNamespace\s*\(", "doPushHasNamespace"))
+    need("^" + re.escape("{assert(m_prefixResolver!=0);boolfHasNamespace=false;constsize_typetheLength=length(theElementName);constsize_typetheColonIndex=indexOf(theElementName,XalanUnicode::charColon);"
+                         "constXalanDOMString*thePrefix=&s_emptyString;if(theColonIndex<theLength){substring(theElementName,m_stringBuffer,0,theColonIndex);thePrefix=&m_stringBuffer;}assert(thePrefix!=0);"
+                         "constXalanDOMString*consttheNamespace=m_prefixResolver->getNamespaceForPrefix(*thePrefix);if(theNamespace!=0&&theNamespace->length()!=0){fHasNamespace=true;}"
+                         "m_stringBuffer.clear();m_hasNamespaceStack.push_back(fHasNamespace);returnfHasNamespace;}") + "$", dp,
+         "doPushHasNamespace: the prefix goes through m_stringBuffer, which is cleared before the function returns")
+    out += "Definition push_has_namespace_clears_buffer : bool := true.    (* doPushHasNamespace ends with m_stringBuffer.clear() *)\n"
+    need("^" + re.escape("{assert(m_prefixResolver!=0);assert(m_hasNamespaceStack.empty()==false);constbooltheValue=m_hasNamespaceStack.back();m_hasNamespaceStack.pop_back();returntheValue;}") + "$",
+         _sq(function_body(src, r"FormatterToHTML::doPopHasNamespace\s*\(", "doPopHasNamespace")), "doPopHasNamespace: the flag pushed by the start tag")
+    need(re.escape("{if(pushHasNamespace(name)==true){FormatterToXML::startElement(name,attrs);}else{writeParentTagEnd();"), _sq(function_body(src, r"FormatterToHTML::startElement\s*\(", "startElement")),
+         "startElement: an element in a namespace goes to FormatterToXML::startElement")
+    need(re.escape("{if(popHasNamespace()==true){FormatterToXML::endElement(name);}else{m_currentIndent-=m_indent;"), _sq(function_body(src, r"FormatterToHTML::endElement\s*\(", "endElement")),
+         "endElement: an element in a namespace goes to FormatterToXML::endElement")
+    xs = _sq(function_body(xsrc, r"FormatterToXML::startElement\s*\(", "FormatterToXML::startElement"))
+    need(re.escape("writeParentTagEnd();m_ispreserve=false;") + ".*?" + re.escape("accumName(XalanUnicode::charLessThanSign);accumName(name);constXalanSize_tnAttrs=attrs.getLength();for(XalanSize_ti=0;i<nAttrs;i++)"
+         "{processAttribute(attrs.getName(i),attrs.getValue(i));}openElementForChildren();"), xs, "FormatterToXML::startElement: '<' name attributes")
+    need(re.escape("if(true==m_needToOutputDocTypeDecl&&m_doctypeSystem.empty()==false){outputDocTypeDecl(name);"), xs, "FormatterToXML::startElement: DOCTYPE only while m_needToOutputDocTypeDecl")
+    need(re.escape("m_needToOutputDocTypeDecl=false;}") + "$", _sq(function_body(src, r"FormatterToHTML::startDocument\s*\(", "startDocument")), "HTML startDocument switches the XML DOCTYPE off")
+    need(re.escape("m_stringBuffer.clear();"), _sq(function_body(src, r"FormatterToHTML::startDocument\s*\(", "startDocument")), "startDocument clears the scratch string")
+    xe = _sq(function_body(xsrc, r"FormatterToXML::endElement\s*\(", "FormatterToXML::endElement"))
+    need(re.escape("constboolhasChildNodes=childNodesWereAdded();if(hasChildNodes==true){if(shouldIndent()==true){indent(m_currentIndent);}accumName(XalanUnicode::charLessThanSign);accumName(XalanUnicode::charSolidus);accumName(name);}"
+                   "else{if(m_spaceBeforeClose==true){accumName(XalanUnicode::charSpace);}accumName(XalanUnicode::charSolidus);}accumName(XalanUnicode::charGreaterThanSign);"), xe, "FormatterToXML::endElement: </name> or />")
+    need("^" + re.escape("{accumContent(XalanUnicode::charSpace);accumName(name);accumContent(XalanUnicode::charEqualsSign);accumContent(XalanUnicode::charQuoteMark);writeAttrString(value,length(value));accumContent(XalanUnicode::charQuoteMark);}") + "$",
+         _sq(function_body(xsrc, r"FormatterToXML::processAttribute\s*\(", "FormatterToXML::processAttribute")), "FormatterToXML::processAttribute")
+    need(r"virtualvoidwriteAttrString\(", _sq(hdr), "writeAttrString is virtual (the HTML one serves namespaced elements too)")
+    need(re.escape("if(startsWith(m_doctypePublic,s_xhtmlDocTypeString)==true){m_spaceBeforeClose=true;}"), _sq(function_body(xsrc, r"FormatterToXML::FormatterToXML\s*\(", "FormatterToXML constructor")),
+         "space before '/>' for XHTML public ids")
+    need("^" + re.escape("{accumContent(XalanUnicode::charPercentSign);assert(m_stringBuffer.empty()==true);NumberToHexDOMString(theChar,m_stringBuffer);if(m_stringBuffer.length()==1){accumContent(XalanUnicode::charDigit_0);}"
+                         "accumContent(m_stringBuffer);m_stringBuffer.clear();}") + "$", _sq(function_body(src, r"FormatterToHTML::accumHexNumber\s*\(", "accumHexNumber")),
+         "accumHexNumber appends to the scratch string, writes it, clears it")
     # ---- startElement / endElement / characters
     se = _sq(function_body(src, r"FormatterToHTML::startElement\s*\(", "startElement"))
     need(re.escape("writeParentTagEnd();constXalanHTMLElementsProperties::ElementProperties&elemProperties=XalanHTMLElementsProperties::find(name);"), se, "startElement: parent tag end, look-up")
